@@ -43,8 +43,25 @@ def parent_map(root):
     return {ch: p for p in ast.walk(root) for ch in ast.iter_child_nodes(p)}
 
 
+def fresh_run_rule(ctx):
+    """C20.fresh: a run that is not resumed starts from a history object created in this call, whatever the sampler object was used for before.  A history
+    kept from an earlier sample() call makes the second of two identically seeded runs on one sampler report the two runs' series concatenated and the sum
+    of both evidences."""
+    from .smcloop import fold_sample
+    repo = ctx.repo
+    sf = fold_sample(repo, resumed=False, final=False)
+    hv = dict(sf.loop["body_heap"]).get((SELF, "history")) if sf.loop else sf.ev.heap.get((SELF, "history"))
+    if hv is None:
+        hv = sf.ev.heap.get((SELF, "history"))
+    ok = hv is not None and hv[0] == "obj"
+    ctx.decide(ok, "C20.fresh", sf.sample.ident, loc_of(sf.sample, sf.loop_node), "a non-resumed run enters the loop with a history object created in this call",
+               f"a non-resumed run enters the loop with history = {T.show(hv)[:140] if hv else None}: what an earlier sample() call on the same sampler recorded is kept, so an identically seeded "
+               "second run reports other series and another evidence than the first", disc="history")
+
+
 def run(ctx):
     repo = ctx.repo
+    fresh_run_rule(ctx)
     n_fresh = 0
     # ------------------------------------------------------------ fresh sources
     for f in repo.all_functions(include_nested=False):
@@ -599,6 +616,7 @@ _JF = "src/aspire/flows/jax/flows.py"
 _S = "src/aspire/samples.py"
 _E = "src/aspire/samplers/smc/emcee.py"
 MUTANTS = [
+    M("a fresh run keeps an existing history", _B, "self.history = SMCHistory()\n", "if not isinstance(self.history, SMCHistory):\n                self.history = SMCHistory()\n", "C20.fresh"),
     M("resample always uses a fresh generator", _S, "if rng is None:\n            rng = np.random.default_rng()\n        if n_samples is None:", "rng = np.random.default_rng()\n        if n_samples is None:", "C20.fresh"),
     M("rejection sampling from the global state", _S, "np.log(rng.uniform(size=len(self.x)))", "np.log(np.random.uniform(size=len(self.x)))", ("C20.fresh", "C20.used")),
     M("SMC constructor ignores rng", _B, "self.rng = rng or np.random.default_rng()\n        self._adapative_target_efficiency = False", "self.rng = np.random.default_rng()\n        self._adapative_target_efficiency = False", ("C20.fresh", "C20.used")),
